@@ -49,11 +49,35 @@ type Obs struct {
 	Del, NDel, DelTwins, DelAgain   []int64
 	UnscopedFind, UnscopedDel       []int64
 	UnscopedSQL                     string
+	Assoc, NAssoc                   [][]int64
 	NUnscopedFind                   []int64
 	Errs                            []string `json:"errs"`
 }
 
 const liveAtom = 40
+
+// association paths: an Owner has many soft-deletable Kids; a Pet belongs to a soft-deletable Keeper
+type Owner struct {
+	ID   int64 `gorm:"primaryKey"`
+	Name string
+	Kids []Kid
+}
+type Kid struct {
+	ID        int64 `gorm:"primaryKey"`
+	OwnerID   int64
+	Age       int64
+	DeletedAt gorm.DeletedAt
+}
+type Keeper struct {
+	ID        int64 `gorm:"primaryKey"`
+	Name      string
+	DeletedAt gorm.DeletedAt
+}
+type Pet struct {
+	ID       int64 `gorm:"primaryKey"`
+	KeeperID int64
+	Keeper   *Keeper
+}
 
 var (
 	names = []string{"a", "b", "ab", "c d", "x"}
@@ -273,6 +297,13 @@ func (e *env) run(in Input) Obs {
 	o.UnscopedDel = sorted(o.UnscopedDel)
 	// the same chain on the table without the twins
 	fail("reset", e.reset(in, false))
+	{
+		var errs []string
+		o.NAssoc, errs = e.assoc(in, false)
+		o.Errs = append(o.Errs, errs...)
+		o.Assoc, errs = e.assoc(in, true)
+		o.Errs = append(o.Errs, errs...)
+	}
 	reads(&o.NFind, &o.NCount, &o.NFirst, false)
 	{
 		var dst []whr.TS
@@ -281,6 +312,108 @@ func (e *env) run(in Input) Obs {
 	}
 	writes(false, &o.NUpdate, nil, &o.NDel, nil, nil)
 	return o
+}
+
+// assoc runs the association paths on data derived from the case's rows: owner k has the kids
+// whose id % 3 == k; kid i has a soft-deleted twin i+100; keeper j (1..3) has a soft-deleted twin
+// j+100 to which pet j+10 points.
+func (e *env) assoc(in Input, twins bool) ([][]int64, []string) {
+	db := e.db
+	var errs []string
+	fail := func(w string, err error) {
+		if err != nil {
+			errs = append(errs, w+": "+err.Error())
+		}
+	}
+	for _, t := range []string{"owners", "kids", "keepers", "pets"} {
+		fail("reset", db.Exec("DELETE FROM "+t).Error)
+	}
+	for k := int64(0); k < 3; k++ {
+		fail("ins", db.Exec("INSERT INTO owners (id, name) VALUES (?,?)", k+1, "o").Error)
+		fail("ins", db.Exec("INSERT INTO keepers (id, name, deleted_at) VALUES (?,?,NULL)", k+1, "k").Error)
+		fail("ins", db.Exec("INSERT INTO pets (id, keeper_id) VALUES (?,?)", k+1, k+1).Error)
+		if twins {
+			fail("ins", db.Exec("INSERT INTO keepers (id, name, deleted_at) VALUES (?,?,?)", k+101, "k", t1).Error)
+			fail("ins", db.Exec("INSERT INTO pets (id, keeper_id) VALUES (?,?)", k+11, k+101).Error)
+		}
+	}
+	for _, r := range in.Rows {
+		fail("ins", db.Exec("INSERT INTO kids (id, owner_id, age, deleted_at) VALUES (?,?,?,NULL)", r.ID, r.ID%3+1, r.Age).Error)
+		if twins {
+			fail("ins", db.Exec("INSERT INTO kids (id, owner_id, age, deleted_at) VALUES (?,?,?,?)", r.ID+100, r.ID%3+1, r.Age, t1).Error)
+		}
+	}
+	var out [][]int64
+	kidIDs := func(ks []Kid) []int64 {
+		ids := []int64{}
+		for _, k := range ks {
+			ids = append(ids, k.ID)
+		}
+		return sorted(ids)
+	}
+	// Preload, with and without a condition
+	var owners []Owner
+	fail("preload", db.Preload("Kids").Order("id").Find(&owners).Error)
+	for _, o := range owners {
+		out = append(out, kidIDs(o.Kids))
+	}
+	owners = nil
+	fail("preload_cond", db.Preload("Kids", "age > ? OR age = ?", 2, 0).Order("id").Find(&owners).Error)
+	for _, o := range owners {
+		out = append(out, kidIDs(o.Kids))
+	}
+	// association mode lookups
+	for k := int64(1); k <= 3; k++ {
+		var kids []Kid
+		o := Owner{ID: k}
+		fail("assoc_find", db.Model(&o).Association("Kids").Find(&kids))
+		out = append(out, kidIDs(kids))
+		out = append(out, []int64{db.Model(&o).Association("Kids").Count()})
+		kids = nil
+		fail("assoc_find_cond", db.Model(&o).Where("age < ? OR age > ?", 1, 3).Association("Kids").Find(&kids))
+		out = append(out, kidIDs(kids))
+	}
+	// association join and preload of a soft-deletable belongs-to target (pets 1..3 only: the
+	// twin pets 11..13 exist only with twins and must come back WITHOUT a keeper)
+	var pets []Pet
+	fail("joins", db.Joins("Keeper").Order("pets.id").Find(&pets).Error)
+	ids := []int64{}
+	for _, p := range pets {
+		if p.ID < 10 {
+			if p.Keeper != nil {
+				ids = append(ids, p.Keeper.ID)
+			} else {
+				ids = append(ids, 0)
+			}
+		} else if p.Keeper != nil {
+			errs = append(errs, fmt.Sprintf("joins: pet %d got soft-deleted keeper %d", p.ID, p.Keeper.ID))
+		}
+	}
+	out = append(out, ids)
+	pets = nil
+	fail("preload_belongs", db.Preload("Keeper").Order("id").Find(&pets).Error)
+	ids = []int64{}
+	for _, p := range pets {
+		if p.ID < 10 {
+			if p.Keeper != nil {
+				ids = append(ids, p.Keeper.ID)
+			} else {
+				ids = append(ids, 0)
+			}
+		} else if p.Keeper != nil {
+			errs = append(errs, fmt.Sprintf("preload: pet %d got soft-deleted keeper %d", p.ID, p.Keeper.ID))
+		}
+	}
+	out = append(out, ids)
+	// inner join on the association: pets of soft-deleted keepers are not returned at all
+	pets = nil
+	fail("innerjoins", db.InnerJoins("Keeper").Order("pets.id").Find(&pets).Error)
+	ids = []int64{}
+	for _, p := range pets {
+		ids = append(ids, p.ID)
+	}
+	out = append(out, ids)
+	return out, errs
 }
 
 func gOZ(p *int64) string {
@@ -305,7 +438,8 @@ func term(in Input, o Obs) string {
 		lib.ZList(o.NFind), lib.Z(o.NCount), gOZ(o.NFirst),
 		lib.ZList(o.Update), lib.ZList(o.NUpdate), lib.ZList(o.UpdTwins),
 		lib.ZList(o.Del), lib.ZList(o.NDel), lib.ZList(o.DelTwins), lib.ZList(o.DelAgain),
-		lib.ZList(o.UnscopedFind), lib.ZList(o.NUnscopedFind), lib.ZList(o.UnscopedDel), lib.Z(int64(len(o.Errs))))
+		lib.ZList(o.UnscopedFind), lib.ZList(o.NUnscopedFind), lib.ZList(o.UnscopedDel),
+		lib.ListOf(o.Assoc, lib.ZList), lib.ListOf(o.NAssoc, lib.ZList), lib.Z(int64(len(o.Errs))))
 }
 
 func main() {
@@ -313,7 +447,7 @@ func main() {
 	whr.UseSoft = true
 	db, _, _, err := gdb.Open(gdb.Opt{Config: &gorm.Config{NowFunc: func() time.Time { return t2 }}})
 	lib.Must(err)
-	lib.Must(db.AutoMigrate(&whr.TS{}))
+	lib.Must(db.AutoMigrate(&whr.TS{}, &Owner{}, &Kid{}, &Keeper{}, &Pet{}))
 	e := &env{db: db}
 	out := lib.NewOut(a.Out, "C08")
 	out.PerFile = 60
